@@ -40,7 +40,12 @@ fn generated(rng: &mut Rng, k: usize) -> Design {
         let name = format!("g{i}");
         let mut g = GlyphSrc::new(&name, 400.0 + 7.0 * i as f64);
         if i < 60 {
-            g = g.uni(0x100 + i as u32);
+            // several scripts, so that kerning is split per script and merged again (seed C01-1)
+            g = g.uni(match i % 3 {
+                0 => 0x100 + i as u32,          // Latin
+                1 => 0x410 + i as u32,          // Cyrillic
+                _ => if i < 24 { 0x3B1 + i as u32 } else { 0x100 + i as u32 }, // Greek
+            });
         }
         match rng.below(4) {
             0 | 1 => g = g.rect(0., 0., 100. + i as f64, 200. + i as f64),
@@ -70,6 +75,19 @@ fn generated(rng: &mut Rng, k: usize) -> Design {
     groups.push(("public.kern1.L".to_string(), names[..half.min(6)].to_vec()));
     groups.push(("public.kern2.R".to_string(), names[half..(half + 6).min(names.len())].to_vec()));
     kerning.push(("public.kern1.L".to_string(), "public.kern2.R".to_string(), -25.0));
+    // class-to-glyph / glyph-to-class pairs over the cross-script groups, with glyph-glyph exceptions
+    // of a different value (first-wins insertion order decides which value reaches the font)
+    for _ in 0..rng.range(1, 5) {
+        let b = rng.pick(&names).clone();
+        let v = rng.range(-60, -10) as f64;
+        kerning.push(("public.kern1.L".to_string(), b.clone(), v));
+        let m = rng.pick(&groups[0].1).clone();
+        kerning.push((m, b.clone(), v + 20.0));
+        let a = rng.pick(&names).clone();
+        kerning.push((a.clone(), "public.kern2.R".to_string(), v - 3.0));
+        let m2 = rng.pick(&groups[1].1).clone();
+        kerning.push((a, m2, v + 11.0));
+    }
     for _ in 0..rng.range(4, 30) {
         let a = rng.pick(&names).clone();
         let b = rng.pick(&names).clone();
@@ -85,12 +103,23 @@ fn generated(rng: &mut Rng, k: usize) -> Design {
     }
     if rng.chance(1, 2) {
         des.masters[0].features = Some("languagesystem DFLT dflt;\nlanguagesystem latn dflt;\nfeature liga { sub a g0 by g1; } liga;\nfeature ss01 { featureNames { name \"Alt\"; }; sub a by g2; } ss01;\n".to_string());
+        // overlapping mark attachment classes: the class of the shared glyph must not depend on hash order
+        if des.masters[0].skip_export.is_empty() && rng.chance(1, 2) {
+            des.masters[0].features.as_mut().unwrap().push_str("@MA = [g0 g1 g2 g3];\n@MB = [g2 g3 g4];\n@MC = [g3 g4 g5 g0];\nfeature ss06 { lookup ma { lookupflag MarkAttachmentType @MA; sub a by g1; } ma; lookup mb { lookupflag MarkAttachmentType @MB; sub g1 by g2; } mb; lookup mc { lookupflag MarkAttachmentType @MC; sub g2 by g3; } mc; } ss06;\n");
+        }
     }
     if rng.chance(3, 4) {
         des.axes.push(AxisSrc { name: "Weight".into(), tag: "wght".into(), min: 400., default: 400., max: 900., ..Default::default() });
         let two_axes = rng.chance(1, 3);
         if two_axes {
             des.axes.push(AxisSrc { name: "Width".into(), tag: "wdth".into(), min: 75., default: 100., max: 100., ..Default::default() });
+        }
+        // several features varied under one condition set: the substitution records of one
+        // FeatureVariationRecord come from a HashMap in fea-rs
+        if des.masters[0].skip_export.is_empty() && rng.chance(2, 3) {
+            if let Some(f) = des.masters[0].features.as_mut() {
+                f.push_str("conditionset heavy { wght 700 900; } heavy;\nvariation ss02 heavy { sub a by g0; } ss02;\nvariation ss03 heavy { sub a by g1; } ss03;\nvariation ss04 heavy { sub a by g2; } ss04;\nvariation ss05 heavy { sub a by g3; } ss05;\nvariation liga heavy { sub a g1 by g2; } liga;\n");
+            }
         }
         let base = des.masters[0].clone();
         des.masters[0].location = if two_axes { vec![("Weight".into(), 400.), ("Width".into(), 100.)] } else { vec![("Weight".into(), 400.)] };
